@@ -6,6 +6,7 @@ import SynapModel.Drv.Optim
 import SynapModel.Drv.Layers
 import SynapModel.Drv.Tensor
 import SynapModel.Drv.Init
+import SynapModel.Drv.Rng
 /-!
 # `synapdrv` : line-protocol interpreter of the model
 
@@ -31,6 +32,7 @@ def step (st : State) (line : String) : State × String :=
   | "bn" :: rest => let (w, o) := Drv.Layers.run st.bn rest; ({ st with bn := w }, o)
   | "t" :: rest => let (w, o) := Drv.Tensor.run st.t rest; ({ st with t := w }, o)
   | "init" :: rest => (st, Drv.Init.run rest)
+  | "rng" :: rest => (st, Drv.Rng.run rest)
   | "reset" :: _ => ({}, "ok")
   | _ => (st, "bad-op")
 
